@@ -3477,10 +3477,13 @@ sf_verif_check_invariants (SNDFILE *sndfile)
 		return 0 ;
 	if (psf->Magick != SNDFILE_MAGICK)
 		return 0x1 ;
-	if (psf->header.indx < 0 || psf->header.indx > psf->header.len)
-		mask |= 0x2 ;
-	if (psf->header.end < 0 || psf->header.end > psf->header.len)
-		mask |= 0x4 ;
+	/* sd2.c parks the header cursor at the size of its separately allocated resource-fork buffer. */
+	if (SF_CONTAINER (psf->sf.format) != SF_FORMAT_SD2)
+	{	if (psf->header.indx < 0 || psf->header.indx > psf->header.len)
+			mask |= 0x2 ;
+		if (psf->header.end < 0 || psf->header.end > psf->header.len)
+			mask |= 0x4 ;
+		} ;
 	if (psf->header.len < 0 || (psf->header.len > 0 && psf->header.ptr == NULL))
 		mask |= 0x8 ;
 	if (psf->rchunks.used > psf->rchunks.count)
